@@ -64,7 +64,10 @@ def dispatch(mod, sc, emit):
         own0.append({k: owner(fx[k]) for k in insts})
     emit({"ids": ids, "own": own0})
     P.take_log()
-    NK = sc["nclasses"] * len(FAMILY)
+    NK = sc.get("ncounts", sc["nclasses"] * len(FAMILY))
+    co = {"iM": mod.M(), "iT": mod.T(), "iE": mod.E(), "iW": mod.W()}
+    for fx in fixed:
+        fx.update(co)
     for st in sc["sets"]:
         cls = getattr(mod, "S%d" % st["id"])
         fx, o0 = fixed[st["fam"]], own0[st["fam"]]
@@ -112,11 +115,48 @@ def dispatch(mod, sc, emit):
 
 
 # ------------------------------------------------------------------------------------------
+def probe_empty(mod, e, other):
+    """name -> outcome of using a wrapper that has no C++ object ("ok:<repr>" or the exception type)"""
+    import copy
+    N = mod.Node
+    P = {
+        "const0 get_id": lambda: e.get_id(), "const0 peek": lambda: e.peek(), "const1 get_val": lambda: e.get_val(0),
+        "const make": lambda: e.make(), "const cchild": lambda: e.cchild(), "const get_copy": lambda: e.get_copy(0),
+        "nonconst0 touch": lambda: e.touch(), "nonconst child": lambda: e.child(), "nonconst me": lambda: e.me(),
+        "nonconst2 set_val": lambda: e.set_val(0, 1), "nonconst1 look": lambda: e.look(e),
+        "static global_ptr": lambda: type(e.global_ptr()).__name__,
+        "property get": lambda: e.touched, "property set": lambda: setattr(e, "touched", 1),
+        "operator +": lambda: e + 1, "operator ==": lambda: e == e, "len": lambda: len(e), "item": lambda: e[0],
+        "seq property item": lambda: e.vals[0], "seq property len": lambda: len(e.vals),
+        "seq property set": lambda: e.mvals.__setitem__(0, 1), "map property item": lambda: e.named["a"],
+        "map property set": lambda: e.mnamed.__setitem__("a", 1), "make_seq": lambda: e.get_vals(),
+        "bound method": lambda: (e.get_val)(1), "copy": lambda: copy.copy(e), "bits": lambda: owner(e) + [e.this],
+    }
+    if other is not None:
+        P["as argument"] = lambda: other.look(e)
+        P["as == operand"] = lambda: other == e
+    out = {}
+    for name, f in sorted(P.items()):
+        try:
+            out[name] = "ok:" + repr(f())
+        except BaseException as ex:          # noqa
+            out[name] = type(ex).__name__
+    return out
+
+
+Unchained = None
+
+
 def objects(mod, sc, emit):
     """object histories: every history is a list of steps over wrapper slots w0..; after every
     step the ownership bits of every live wrapper and the instance counters are reported."""
+    global Unchained
     P = mod.Probe
     N = mod.Node
+
+    class Unchained(N):           # a Python subclass whose __init__ does not call the base __init__
+        def __init__(self):
+            pass
     for h in sc["histories"]:
         emit({"at": ["h", h["id"]]})
         P.reset()
@@ -130,6 +170,11 @@ def objects(mod, sc, emit):
             try:
                 if op == "PyConstruct":
                     w[a[0]] = N()
+                elif op == "NewEmpty":
+                    # a wrapper without a C++ object: both ways of getting one, alternating
+                    w[a[0]] = N.__new__(N) if h["id"] % 2 == 0 else Unchained()
+                elif op in ("Init", "ReInit"):
+                    N.__init__(w[a[0]])
                 elif op == "ReturnByValue":
                     w[a[0]] = w[a[1]].make()
                 elif op == "ReturnBorrowed":
@@ -151,9 +196,16 @@ def objects(mod, sc, emit):
             except BaseException as e:          # noqa
                 exc = type(e).__name__
             P.take_log()
-            obs.append({"exc": exc, "made": P.made() - base[0], "died": P.died() - base[1],
-                        "w": {k: owner(v) + ([v.get_id(), v.get_touched()] if k in usable else [None, None])
-                              for k, v in sorted(w.items())}})
+            rec = {"exc": exc, "made": P.made() - base[0], "died": P.died() - base[1],
+                   "w": {k: owner(v) + ([v.get_id(), v.get_touched()] if k in usable else [None, None])
+                         for k, v in sorted(w.items())}}
+            # every use of a wrapper without object must raise an ordinary exception and change nothing
+            if st.get("empty"):
+                other = next((w[k] for k in usable if k in w), None)
+                rec["probes"] = {k: probe_empty(mod, w[k], other) for k in st["empty"] if k in w}
+                other = None
+                rec["after_probes"] = [P.made() - base[0], P.died() - base[1]]
+            obs.append(rec)
         w = None
         gc.collect()
         emit({"h": h["id"], "obs": obs, "end": [P.made() - base[0], P.died() - base[1]], "dlog": P.take_dlog()})
